@@ -3,6 +3,7 @@
 package verifharness
 
 import (
+	"strconv"
 	"strings"
 	"testing"
 
@@ -100,6 +101,13 @@ func TestC16(t *testing.T) {
 	for j := 0; j < 40; j++ {
 		v := rng.Uint64() >> uint(rng.Intn(64))
 		out.emit("iter", "bititer", []string{hx(v), "3"}, guard(func() string { return bitIterObs(v, 3) }))
+	}
+	// the end is reported for good: hundreds of calls past it (counters that wrap around)
+	for _, v := range []uint64{1, 2, 5, 1 << 20, 1<<40 + 7, 1 << 63, ^uint64(0)} {
+		for _, extra := range []int{70, 300, 600} {
+			e := extra
+			out.emit("iter", "bititer", []string{hx(v), strconv.Itoa(e)}, guard(func() string { return bitIterObs(v, e) }))
+		}
 	}
 	// ToGindex64 on an (index, depth) grid, depth over the whole uint8 range
 	idxs := []uint64{0, 1, 2, 3, 4, 7, 8, 255, 256, 1 << 31, 1<<32 - 1, 1 << 32, 1<<62 - 1, 1 << 62, 1<<63 - 1, 1 << 63, ^uint64(0)}
